@@ -116,6 +116,21 @@ def main():
                     o["subs"] = [s_ + ";" for s_ in subs]; o["text"] = "out = " + main_
                 else:
                     o["text"] = " ; ".join(subs + ["out = " + main_])
+        if rng.random() < 0.1:
+            # a second live monitor of the same specification, fed other data, its update() calls interleaved with the first one's:
+            # each monitor's i-th value is a function of the samples fed to *it* (seeds C02-c, r9 C02-1: one operator table per class)
+            import copy as _copy
+            o2 = _copy.deepcopy(o)
+            w2 = gen_trace(rng, vs, N, S)
+            evs2 = [ev_parse(o=2)] + [ev_update(t, sample_at(w2, t), o=2) for t in range(N)]
+            merged, i1, i2 = [], 0, 0
+            while i1 < len(evs) or i2 < len(evs2):
+                if i2 >= len(evs2) or (i1 < len(evs) and rng.random() < 0.5):
+                    merged.append(evs[i1]); i1 += 1
+                else:
+                    merged.append(evs2[i2]); i2 += 1
+            cases.append(case([o, o2], merged))
+            continue
         cases.append(case([o], evs))
     traces = runner.run_cases(cases)
     vs_, gen, dist = core.validate("C02", traces)
